@@ -501,10 +501,14 @@ func (c *ChannelArbitrator) progressStateMachineAfterRestart(bestHeight int32,
 	commitSet *CommitSet) error {
 
 	// If the channel has been marked pending close in the database, and we
-	// haven't transitioned the state machine to StateContractClosed (or a
-	// succeeding state), then a state transition most likely failed. We'll
-	// try to recover from this by manually advancing the state by setting
-	// the corresponding close trigger.
+	// haven't transitioned the state machine past StateContractClosed,
+	// then a state transition most likely failed. We'll try to recover
+	// from this by manually advancing the state by setting the
+	// corresponding close trigger. StateContractClosed is included: if we
+	// stopped after committing it but before its step completed, the step
+	// is executed again and must see the close trigger the uninterrupted
+	// run used. With a plain chain trigger the HTLCs that are not yet
+	// close to expiry would get no chain action and hence no resolver.
 	trigger := chainTrigger
 	triggerHeight := uint32(bestHeight)
 	if c.cfg.IsPendingClose {
@@ -514,6 +518,8 @@ func (c *ChannelArbitrator) progressStateMachineAfterRestart(bestHeight int32,
 		case StateBroadcastCommit:
 			fallthrough
 		case StateCommitmentBroadcasted:
+			fallthrough
+		case StateContractClosed:
 			switch c.cfg.CloseType {
 
 			case channeldb.CooperativeClose:
